@@ -265,6 +265,9 @@ pub struct SinkOpts {
     /// the injected error is returned once (the data of that call is not written) and later
     /// calls succeed (default: sticky)
     pub transient: bool,
+    /// the injected error is an `ErrorKind::Interrupted` (nothing written / flushed; returned
+    /// once; `write_all` and every careful writer repeat the call)
+    pub interrupt: bool,
 }
 
 /// A sink whose every `write` and `flush` is a choice point.
@@ -315,6 +318,9 @@ impl Write for ScriptedWriter {
             menu[c - 1]
         } else {
             self.script.set_fault();
+            if self.opts.interrupt {
+                return Err(interrupted());
+            }
             self.failed = !self.opts.transient;
             return Err(injected());
         };
@@ -329,6 +335,9 @@ impl Write for ScriptedWriter {
         let c = self.script.choose(Kind::SinkFlush, 1 + fault_ok as u16);
         if c == 1 {
             self.script.set_fault();
+            if self.opts.interrupt {
+                return Err(interrupted());
+            }
             self.failed = !self.opts.transient;
             return Err(injected());
         }
